@@ -27,6 +27,9 @@ pub struct Case {
     /// 4: conforming server, reached by a second connection made on the same thread after a first connection whose
     ///    transport died exactly when the Client Info PDU was handed to it
     /// 5: like 1, the confirm carrying no negotiation structure at all
+    /// 6: conforming server, reached by the second connect of a Connector that first connected (successfully, to another
+    ///    conforming server) with OTHER credentials in password mode and was then given the case's credentials / hash
+    ///    through its setters
     pub server: u8,
     pub flags: u32,
 }
@@ -75,7 +78,7 @@ pub fn make_case(combo: u64, idx: u64, seed: u64) -> Case {
             }
         }
         2 => {
-            case.server = if r.chance(1, 2) { 3 } else { 4 };
+            case.server = *r.pick(&[3u8, 4, 6]);
         }
         1 => {
             if case.cfg.nla {
@@ -137,6 +140,8 @@ pub fn check_case(c: &Case, rep: &mut Report) {
     let cfg = c.cfg.clone();
     let reuse = c.server == 3;
     let after_dead_write = c.server == 4;
+    let reconfigured = c.server == 6;
+    let seed_bit = c.nla_seed % 2 == 0;
     let sel = c.selected;
     let res = mon::guarded(move || {
         if after_dead_write {
@@ -153,6 +158,37 @@ pub fn check_case(c: &Case, rep: &mut Report) {
             });
             let _ = client::connect_real(&cfg, d1.clone()).map(|_| ());
             return client::connect_real(&cfg, d.clone()).map(|_| ()).map_err(|e| client::err_kind(&e));
+        }
+        if reconfigured {
+            // first connection: other credentials, password mode
+            // ... either of another account, or of the same account still without its hash
+            let same_account = seed_bit;
+            let mut first = cfg.clone();
+            if !same_account {
+                first.domain = "FIRSTDOM".into();
+                first.user = "firstuser".into();
+                first.password = "first-password-GHTY".into();
+            }
+            first.hash = None;
+            let mut p1 = Profile::default();
+            p1.selected_protocol = sel;
+            let d1 = Duplex::new(p1);
+            let mut nr1 = Rng::new(0x1719);
+            let nla1 = gen::nla_cfg(&mut nr1, &first);
+            d1.with(|s| {
+                s.tls_identity = 2;
+                s.nla_cfg = nla1;
+            });
+            let mut k = client::connector(&first);
+            let _ = k.connect(d1.clone()).map(|_| ());
+            // the application now configures the account of this case on the same object
+            if !same_account {
+                k = k.credentials(cfg.domain.clone(), cfg.user.clone(), cfg.password.clone());
+            }
+            if let Some(h) = &cfg.hash {
+                k = k.set_password_hash(h.clone());
+            }
+            return k.connect(d.clone()).map(|_| ()).map_err(|e| client::err_kind(&e));
         }
         if !reuse {
             return client::connect_real(&cfg, d.clone()).map(|_| ()).map_err(|e| client::err_kind(&e));
@@ -219,7 +255,7 @@ pub fn check_case(c: &Case, rep: &mut Report) {
                 }
             }
         }
-        if c.server != 0 && c.server != 3 && c.server != 4 {
+        if c.server != 0 && c.server != 3 && c.server != 4 && c.server != 6 {
             // a server outside the rules: only the negative part (the secrets appear nowhere else) is judged
             return;
         }
@@ -275,7 +311,7 @@ pub fn check_case(c: &Case, rep: &mut Report) {
         Ok(()) => rep.hist("connected"),
         Err(e) => {
             rep.hist(&format!("connect-error:{}", e));
-            if c.server == 0 || c.server == 3 || c.server == 4 {
+            if c.server == 0 || c.server == 3 || c.server == 4 || c.server == 6 {
                 rep.inconclusive(&format!("connect failed ({}) in mode {}", e, mode));
             }
         }
@@ -283,7 +319,7 @@ pub fn check_case(c: &Case, rep: &mut Report) {
     if connect.is_ok() || c.server != 0 {
         rep.nontrivial(fnv(j.to_string().as_bytes()));
     }
-    rep.set("server_behaviours", ["conforming", "selection-leaves-transport-in-clear", "unusual-challenge-flags", "second-connect-of-a-connector-whose-first-failed", "connection-after-one-whose-transport-died-at-the-client-info", "confirm-without-negotiation-structure"][c.server as usize].to_string());
+    rep.set("server_behaviours", ["conforming", "selection-leaves-transport-in-clear", "unusual-challenge-flags", "second-connect-of-a-connector-whose-first-failed", "connection-after-one-whose-transport-died-at-the-client-info", "confirm-without-negotiation-structure", "second-connect-of-a-connector-reconfigured-through-its-setters"][c.server as usize].to_string());
     rep.set("modes", mode.clone());
     if rep.want_sample() {
         let jj = j.clone();
@@ -297,7 +333,7 @@ pub fn check_case(c: &Case, rep: &mut Report) {
 pub fn run(cfg: &Cfg) -> Report {
     crate::tls::prewarm(false);
     let seed = cfg.seed;
-    let per = cfg.n(100, 20_000);
+    let per = cfg.n(300, 20_000);
     par_run(cfg, 32 * per, 4, |i, rep| {
         let combo = i % 32;
         let idx = i / 32;
